@@ -53,7 +53,11 @@ Defs == <<
   [terms |-> T2, rules |-> <<R(11, <<1>>, 1, 1, <<2>>)>>],
   \* 9: good, with 170 terminals: the symbol tables of the object grow while it is being defined
   [terms |-> [i \in 1..170 |-> [n |-> 100 + i, c |-> 100 + i]],
-   rules |-> <<R(11, <<101, 11, 102>>, 1, 1, <<1, 2>>), R(11, <<270>>, 0, 0, <<1>>), R(11, <<12>>, 0, 0, <<1>>), R(12, <<103, 104>>, 2, 1, <<2>>)>>]
+   rules |-> <<R(11, <<101, 11, 102>>, 1, 1, <<1, 2>>), R(11, <<270>>, 0, 0, <<1>>), R(11, <<12>>, 0, 0, <<1>>), R(12, <<103, 104>>, 2, 1, <<2>>)>>],
+  \* 10: good, one nonterminal with 130 alternatives: written as a description text it is one wide rule (the yacc parser of
+  \*     descriptions must cope with it, in particular when memory for its own stack is refused)
+  [terms |-> [i \in 1..130 |-> [n |-> 100 + i, c |-> 100 + i]],
+   rules |-> [i \in 1..130 |-> R(11, <<100 + i>>, 0, 0, <<1>>)]]
 >>
 DefIds == DOMAIN Defs
 BadText == 0          \* a description with a syntax error
